@@ -36,12 +36,21 @@ func c11ParamFlow(e *Env) {
 	r := e.R
 	r.Rule("C11.param-flow", "VF", "start parameters pass through unchanged", 3)
 	// (1) API handler: StartOptions{Params: params.Body.Params}
-	pa := e.Fn("internal/frontend/dag", "(*Handler).postAction")
-	if pa != nil {
+	// (the handler that issues the start: wherever in the API handler package the
+	// client's Start / StartAsync is invoked)
+	var starts []ssa.CallInstruction
+	fp := e.P.Pkg("internal/frontend/dag")
+	for _, f := range e.RepoFuncsSorted() {
+		if fp == nil || rootFn(f).Package() != fp {
+			continue
+		}
+		starts = append(starts, ir.CallsIn(f, func(c *ssa.CallCommon) bool {
+			return c.IsInvoke() && (c.Method.Name() == "StartAsync" || c.Method.Name() == "Start") && strings.HasSuffix(ir.NamedType(c.Value.Type()), "client.Client")
+		})...)
+	}
+	if fp != nil {
 		n := 0
-		for _, ci := range ir.CallsIn(pa, func(c *ssa.CallCommon) bool {
-			return c.IsInvoke() && (c.Method.Name() == "StartAsync" || c.Method.Name() == "Start")
-		}) {
+		for _, ci := range starts {
 			n++
 			opts := ci.Common().Args[len(ci.Common().Args)-1]
 			ok := false
@@ -64,7 +73,7 @@ func c11ParamFlow(e *Env) {
 			r.Check(ok, "API start: StartOptions.Params = request Body.Params", e.InstrPos(ci), "the parameters given in the API request are not what the start is issued with")
 		}
 		if n == 0 {
-			r.Unknown("API start action", e.Pos(pa.Pos()), "no StartAsync call")
+			r.Unknown("API start action", "internal/frontend/dag", "no StartAsync call")
 		}
 	}
 	// (2) client.Start: "-p", `"` + escapeArg(opts.Params) + `"`
@@ -207,6 +216,12 @@ func c11Encoding(e *Env, v ssa.Value, depth int) (kinds []string, fromParams boo
 		return nil, true
 	}
 	switch x := v.(type) {
+	case *ssa.Parameter:
+		// the parameter of a single-call-site helper stands for its argument
+		if d := ir.Deep(x); d != ssa.Value(x) {
+			return c11Encoding(e, d, depth+1)
+		}
+		return nil, false
 	case *ssa.MakeInterface:
 		return c11Encoding(e, x.X, depth+1)
 	case *ssa.Convert:
@@ -261,6 +276,18 @@ func c11Encoding(e *Env, v ssa.Value, depth int) (kinds []string, fromParams boo
 				if fp {
 					kinds = append(kinds, k...)
 					fromParams = true
+				}
+			}
+			// a single-call-site helper that assembles the argument: what it returns
+			if ir.UniqueSite(sc) != nil && sc.Blocks != nil {
+				for _, b := range sc.Blocks {
+					if rt, ok := b.Instrs[len(b.Instrs)-1].(*ssa.Return); ok && len(rt.Results) == 1 {
+						k, fp := c11Encoding(e, rt.Results[0], depth+1)
+						if fp {
+							kinds = append(kinds, k...)
+							fromParams = true
+						}
+					}
 				}
 			}
 			if fromParams && e.reachesStatic(sc, func(f *ssa.Function) bool {
